@@ -69,6 +69,7 @@ type interpreter struct {
 	stubsHit map[string]int
 	overrides map[string]value
 	trace    *traceState
+	numCPU   int
 	summ        *summCtx
 	pathReach   map[string]int
 	inInit      bool
